@@ -804,7 +804,7 @@ func c11CountOutcome(c *kit.Case, out *c11Outcome) {
 // (a) sampled task lists, scripted faults
 
 func TestVerifC11Tasks(t *testing.T) {
-	kit.Run(t, kit.Config{Property: "C11", Unit: "util-tasks", Quick: 30000, Thorough: 600000,
+	kit.Run(t, kit.Config{Property: "C11", Unit: "util-tasks", Quick: 30000, Thorough: 2400000,
 		Rule: "2-15 pods (class, QoS, priority at class boundaries, eviction-priority, sub-priority label, zero usage / no sample / zero request), 1-3 tasks of one plugin in its published feature order with the strategies' filters, comparators, release-function shapes and targets from 1 to more than everything; executor script none / all fail / first only / every k-th / random p%, 0-100% of pods already evicted, evict-by-API or kill mode; distinct = (plugin, features, n class, fault script kind, already-evicted class, attempts class, met/unmet); non-trivial = at least one attempt and (a failure, an already-evicted pod counted, or a task whose target was met)"},
 		func(c *kit.Case) {
 			r := c.R
@@ -858,7 +858,7 @@ func TestVerifC11Tasks(t *testing.T) {
 // (b) complete fault tree per scenario with <= 6 pods
 
 func TestVerifC11FaultTree(t *testing.T) {
-	kit.Run(t, kit.Config{Property: "C11", Unit: "util-fault-tree", Quick: 20000, Thorough: 300000,
+	kit.Run(t, kit.Config{Property: "C11", Unit: "util-fault-tree", Quick: 20000, Thorough: 1200000,
 		Rule: "scenario generated as in util-tasks but with 1-6 pods and pods x tasks <= 12; for that scenario EVERY fail/succeed script of the individual Evict calls is executed (the binary fault tree over the calls actually made is enumerated completely by backtracking; one inner evaluation per leaf); scenarios themselves are sampled; distinct = (plugin, features, n, leaves class, max attempts); non-trivial = tree with at least 4 leaves"},
 		func(c *kit.Case) {
 			r := c.R
